@@ -153,6 +153,9 @@ def stringReplace (E : SEng) (rx : RX) (S : List Nat) (repl : Repl) : RX × Res 
     | .str rv => fun c => expand S c rv
     | .report => fun c => reportArgs (replacerArgs S c)
     | .const ret => fun _ => ret              -- ToString(result of the call), used verbatim (step "if replaceValue is a function")
+    -- §15.5.4.11: matched substring and captures are Strings (undefined if not matched), the offset a
+    -- Number, "the final argument is string" = ToString(this value), a primitive string
+    | .types => fun c => typeReport [115, 116, 114, 105, 110, 103] c true
   (rx', .str (replaceLoop S f ms 0 []))
 
 /-- §15.5.4.12 String.prototype.search: lastIndex and global are ignored and left unchanged -/
@@ -204,6 +207,7 @@ def step (E : SEng) (S : List Nat) (repU : List Nat → List Nat) (rx : RX) : St
   | .replaceS r => stringReplace E rx S (.str (repU r))
   | .replaceF => stringReplace E rx S .report
   | .replaceK r => stringReplace E rx S (.const (repU r))
+  | .replaceT => stringReplace E rx S .types
   | .split l => stringSplit E rx S l
   | .setLI v => ({ rx with lastIndex := v }, .undef)
 
